@@ -1,7 +1,8 @@
 #!/bin/bash
 # tools/seedtest.sh <prop> <seed-dir>   -- confirm a seeded change and run the check against it.
 # 1. scratch worktree: existing tests pass with the patch; demo fails with it and passes without.
-# 2. apply to /repo, run ./check <prop> quick, undo.
+# 2. run ./check <prop> quick against the scratch worktree with the patch applied (SEED_IN_REPO=1: apply to
+#    /repo itself, run, git checkout -- .).
 set -u
 prop=$1; sd=$(realpath $2)
 export GOFLAGS=-mod=mod GOPROXY=off GOSUMDB=off GOTOOLCHAIN=local
@@ -10,17 +11,29 @@ git -C /repo worktree add -q --detach $wt HEAD || exit 3
 demo=$(cat $sd/demo_path.txt | tr -d '\n ')
 res=""
 ( cd $wt && git apply $sd/patch.diff ) || { echo "SEED patch does not apply"; git -C /repo worktree remove --force $wt; exit 3; }
-( cd $wt/v4 && go build ./... && go test -vet=off -count=1 ./... >/tmp/seed.suite.log 2>&1 ) && res="suite=pass" || res="suite=FAIL"
+( cd $wt/v4 && go build ./... && go test -vet=off -count=1 ./... >/tmp/seed.suite.$$.log 2>&1 ) && res="suite=pass" || res="suite=FAIL"
 if [ -f $sd/demo_test.go ]; then cp $sd/demo_test.go $wt/$demo; else cp $sd/demo_test.go.txt $wt/$demo; fi
 demodir=$(dirname $demo)
-( cd $wt/$demodir && go test -vet=off -count=1 -run . . >/tmp/seed.demo1.log 2>&1 ) && res="$res demo_with_patch=pass(BAD)" || res="$res demo_with_patch=fail(ok)"
+( cd $wt/$demodir && go test -vet=off -count=1 -run . . >/tmp/seed.demo1.$$.log 2>&1 ) && res="$res demo_with_patch=pass(BAD)" || res="$res demo_with_patch=fail(ok)"
 ( cd $wt && git apply -R $sd/patch.diff )
-( cd $wt/$demodir && go test -vet=off -count=1 -run . . >/tmp/seed.demo2.log 2>&1 ) && res="$res demo_without=pass(ok)" || res="$res demo_without=FAIL(BAD)"
-git -C /repo worktree remove --force $wt
+( cd $wt/$demodir && go test -vet=off -count=1 -run . . >/tmp/seed.demo2.$$.log 2>&1 ) && res="$res demo_without=pass(ok)" || res="$res demo_without=FAIL(BAD)"
 echo "SEED $prop $sd: $res"
-# run the check against /repo with the patch applied
-git -C /repo apply $sd/patch.diff || { echo "cannot apply to /repo"; exit 3; }
-( cd /verif && timeout 1800 ./check $prop ${3:-quick} > /tmp/seed.check.log 2>&1 ); rc=$?
-git -C /repo checkout -- .
-echo "CHECK $prop exit=$rc"; grep -m3 "VIOLATION\|INCONCLUSIVE" /tmp/seed.check.log | cut -c1-220
+tier=${3:-quick}
+log=/tmp/seed.check.$$.log
+if [ "${SEED_IN_REPO:-0}" = 1 ]; then
+  # the literal procedure: apply to /repo, run the registered command, undo
+  git -C /repo worktree remove --force $wt
+  git -C /repo apply $sd/patch.diff || { echo "cannot apply to /repo"; exit 3; }
+  ( cd /verif && timeout 1800 ./check $prop $tier > $log 2>&1 ); rc=$?
+  git -C /repo checkout -- .
+else
+  # same check, pointed at the scratch worktree with the patch applied (safe to run several at once;
+  # evidence and replays go to the worktree, not to /verif)
+  rm -f $wt/$demo
+  ( cd $wt && git apply $sd/patch.diff )
+  ( cd /verif && timeout 1800 ./check $prop $tier -repo $wt/v4 -out $wt/.vfout > $log 2>&1 ); rc=$?
+  git -C /repo worktree remove --force $wt
+fi
+echo "CHECK $prop exit=$rc"; grep -m4 "VIOLATION\|INCONCLUSIVE\|KNOWN" $log | cut -c1-220; grep -A1 -m2 "VIOLATION" $log | grep harness= | head -2 | cut -c1-200
+rm -f $log
 exit 0
